@@ -229,6 +229,26 @@ CHECKS['C17'] = dict(
 NOT_APPLICABLE = []
 
 
+
+# additions made by the later rounds of strengthening (appended to the level texts)
+EXTRA = {
+    'C17': 'The members / iteration / length clause incl. alias names, reversed() and `in` is stated directly '
+           '(C17_members_iteration_length); adapter objects created in every order and form are judged by their own strictness '
+           'flag; mask helpers are exercised under caller edits of returned lists.',
+    'C19': 'Every call form of the unit flag (model Angle.UnitArg, theorem C19_call_forms_agree) and input type, element orders '
+           'and layouts; results of earlier calls are kept and re-read.',
+    'C06': 'The encoder is driven through call histories on one and several encoder objects (source given / omitted / refused, '
+           'every ordered pair of payload classes; theorems C06_encoder_call_fields, C06_encoder_labels_independent_of_history); '
+           'altered messages go through every way of writing MessageHeader.unpack(); the C++ routines are also called during '
+           'static initialisation in both link orders.',
+    'C01': 'The oracle also runs every pack/unpack call form (library / caller buffers at non-zero offsets with guard bytes, '
+           'header+payload in one call), bit-set sweeps of integer fields and re-use of one object for several encodings '
+           '(incl. after refused parses).',
+}
+for _k, _v in EXTRA.items():
+    if _v not in CHECKS[_k]['text']:
+        CHECKS[_k]['text'] += ' ' + _v
+
 def main():
     checks = []
     for pid in sorted(CHECKS):
